@@ -183,11 +183,14 @@ def zip3 {β γ δ : Type} : List β → List γ → List δ → List (β × γ 
   | a :: as, b :: bs, d :: ds => (a, b, d) :: zip3 as bs ds
   | _, _, _ => []
 
+/-- the per-phase inputs `_calcMassBalance` reads -/
+def massIns (c : Cfg α) (s : St α) (x : List (List α)) : List (MB.PhaseIn α) :=
+  (zip3 c.phases s.ph x).mapIdx (fun p t => massIn c (s.cur c.nElem) t.1 t.2.1 p t.2.2)
+
 /-- the mass-balance part of a `_calculateDependentTerms` evaluation: writes precipitateDensity, Ravg, ARavg,
 volFrac, fconc of every phase and the matrix composition into the slice `y` (everything else is kept) -/
 def massBalance (c : Cfg α) (s : St α) (x : List (List α)) (a : EvalAns α) (y : Slice α) : Slice α :=
-  let cur := s.cur c.nElem
-  let ins := (zip3 c.phases s.ph x).mapIdx (fun p t => massIn c cur t.1 t.2.1 p t.2.2)
+  let ins := massIns c s x
   let out := MB.massBalance c.minDens c.minComp c.x0 y.comp ins
   let ph := (zip3 out.phases ins a.ph).mapIdx (fun p t =>
     let o := t.1; let i := t.2.1; let an := t.2.2
@@ -421,27 +424,60 @@ structure StepOut (α : Type) where
   xNew : List (List α)      -- the state handed to postProcess (before `_processX`)
   st : St α
 
+/-- the entry state as `getdXdt` leaves it: `_processX(x)` acts on the arrays of `getCurrentX()`, which ARE the PBM
+distributions, so the stored distributions are the processed ones from here on -/
+def entryX (c : Cfg α) (s : St α) : List (List α) := processAll c s (s.ph.map (fun ps => ps.grid.psd))
+
+def aliasSt (c : Cfg α) (s : St α) : St α :=
+  { s with ph := List.zipWith (fun ps xp => { ps with grid := { ps.grid with psd := xp } }) s.ph (entryX c s) }
+
+/-- what `getDt` proposes -/
+def proposedDt (c : Cfg α) (s : St α) (tf : α) : α :=
+  DtRules.getDt c.dt (stepIn c (aliasSt c s) tf) (dtPhases c (aliasSt c s) (entryX c s))
+
+/-- `solver._dtmax` after `if self._dtmax > tf - currTime: self._dtmax = tf - currTime` -/
+def dtmaxNow (c : Cfg α) (s : St α) (tf dtmaxS : α) : α :=
+  if tf - (s.cur c.nElem).time < dtmaxS then tf - (s.cur c.nElem).time else dtmaxS
+
+/-- the accepted step: the clamp of `DESolver._getdXdt` -/
+def acceptedDt (c : Cfg α) (s : St α) (tf dtminS dtmaxS : α) : α :=
+  Solver.clampDt dtminS (dtmaxNow c s tf dtmaxS) (Solver.Dt.fin (proposedDt c s tf))
+
+/-- `X0 + correctdXdt(...)*dt` for every phase, with the nucleation terms of the last recorded row -/
+def advanced (c : Cfg α) (s : St α) (dt : α) : List (List α) :=
+  (zip3 (aliasSt c s).ph (entryX c s) (s.cur c.nElem).ph).map (fun u => advancePh u.1 u.2.1 u.2.2 dt)
+
+/-- the `_calculateDependentTerms` evaluation inside `postProcess`: state after it and the slice to be appended -/
+def evaluated (c : Cfg α) (s : St α) (tf dtminS dtmaxS : α) (aPost : EvalAns α) : St α × Slice α :=
+  let dt := acceptedDt c s tf dtminS dtmaxS
+  depEval c (aliasSt c s) ((s.cur c.nElem).time + dt) (processAll c (aliasSt c s) (advanced c s dt)) aPost (s.cur c.nElem)
+
+/-- state after `_appendArrays` -/
+def appended (c : Cfg α) (s : St α) (tf dtminS dtmaxS : α) (aPost : EvalAns α) : St α :=
+  let e := evaluated c s tf dtminS dtmaxS aPost
+  { e.1 with hist := e.2 :: e.1.hist }
+
 /-- `preProcess; getdXdt(t, X0) (first evaluation: copy of the last recorded slice); getDt; clamp; correctdXdt;
 X0 + dXdt*dt; currTime += dt; postProcess` — `dtminS`, `dtmaxS` are `solver._dtmin`, `solver._dtmax` on entry. -/
 def eulerStep (c : Cfg α) (s : St α) (tf dtminS dtmaxS : α) (aPost : EvalAns α) (upd : List (UpdAns α)) :
     Option (StepOut α) :=
-  let cur := s.cur c.nElem
-  let t := cur.time
-  -- `_processX(x)` inside getdXdt acts on the arrays of `getCurrentX()`, which ARE the PBM distributions
-  let x0 := processAll c s (s.ph.map (fun ps => ps.grid.psd))
-  let sA := { s with ph := List.zipWith (fun ps xp => { ps with grid := { ps.grid with psd := xp } }) s.ph x0 }
-  let rem := tf - t
-  let dtmax' := if rem < dtmaxS then rem else dtmaxS
-  let dtProp := DtRules.getDt c.dt (stepIn c sA tf) (dtPhases c sA x0)
-  let dt := Solver.clampDt dtminS dtmax' (Solver.Dt.fin dtProp)
-  let xNew := (zip3 sA.ph x0 cur.ph).map (fun u => advancePh u.1 u.2.1 u.2.2 dt)
-  let t' := t + dt
-  let xP := processAll c sA xNew
-  let (sB, y) := depEval c sA t' xP aPost cur
-  let sC := { sB with hist := y :: sB.hist }
-  match updateAll c t' sC 0 xP upd with
+  let dt := acceptedDt c s tf dtminS dtmaxS
+  let xNew := advanced c s dt
+  match updateAll c ((s.cur c.nElem).time + dt) (appended c s tf dtminS dtmaxS aPost) 0
+          (processAll c (aliasSt c s) xNew) upd with
   | none => none
-  | some sD => some { dtProposed := dtProp, dt := dt, xNew := xNew, st := sD }
+  | some sD => some { dtProposed := proposedDt c s tf, dt := dt, xNew := xNew, st := sD }
+
+/-- the loop of `DESolver.solve` for as many passes as there are answer records (the backend is an arbitrary stream of
+answers): `while currTime < tf`, with `solver._dtmax` carried from pass to pass.  `none` where the implementation raises. -/
+def runSteps (c : Cfg α) (tf dtminS : α) : St α → α → List (EvalAns α × List (UpdAns α)) → Option (St α × α)
+  | s, dtmaxS, [] => some (s, dtmaxS)
+  | s, dtmaxS, au :: rest =>
+    if (s.cur c.nElem).time < tf then
+      match eulerStep c s tf dtminS dtmaxS au.1 au.2 with
+      | none => none
+      | some o => runSteps c tf dtminS o.st (dtmaxNow c s tf dtmaxS) rest
+    else some (s, dtmaxS)
 
 end generic
 end KawinV.KWNFull
